@@ -92,29 +92,29 @@ type interpreter struct {
 	goroutines         int32                  // atomically updated
 
 	// symbolic engine state (one interpreter per worker)
-	ctx       *sym.Ctx
-	solver    *sym.Solver
-	exp       *Explorer
-	path      *pathState
-	stats     *Stats
-	undo      []func()
-	undoOn    bool
-	curFn     *ssa.Function
-	panicSite string
+	ctx        *sym.Ctx
+	solver     *sym.Solver
+	exp        *Explorer
+	path       *pathState
+	stats      *Stats
+	undo       []func()
+	undoOn     bool
+	curFn      *ssa.Function
+	panicSite  string
 	panicStack string
-	symFuncs  map[*ssa.Function]bool
-	extCache  map[*ssa.Function]externalFn
-	initAllow func(pkgPath string) bool
-	initDone  map[*ssa.Package]bool
-	fuel      int64
-	depth     int
-	hooks     *Hooks
-	sched     *scheduler
-	locks     map[*value]*lockState
-	syncMaps  map[*value]*omap
-	counters  map[*value]*int
-	wrapped   map[*value]iface
-	params    map[string]int
+	symFuncs   map[*ssa.Function]bool
+	extCache   map[*ssa.Function]externalFn
+	initAllow  func(pkgPath string) bool
+	initDone   map[*ssa.Package]bool
+	fuel       int64
+	depth      int
+	hooks      *Hooks
+	sched      *scheduler
+	locks      map[*value]*lockState
+	syncMaps   map[*value]*omap
+	counters   map[*value]*int
+	wrapped    map[*value]iface
+	params     map[string]int
 }
 
 type deferred struct {
@@ -702,7 +702,6 @@ func doRecover(caller *frame) value {
 	}
 	return iface{}
 }
-
 
 func (fr *frame) stackString() string {
 	var sb strings.Builder
